@@ -242,7 +242,14 @@ impl Check for C10 {
         let mut cfg = GenCfg::swarm(rng);
         cfg.w[11] = cfg.w[11].max(3) * 2; // ambiguity triggers matter here
         let na = match rng.below(128) {
-            0 => rng.range(400, 1200),
+            0 => {
+                if rng.chance(1, 96) {
+                    // ~100 KB and thousands of occurrences in one call
+                    rng.range(12_000, 16_000)
+                } else {
+                    rng.range(400, 1200)
+                }
+            }
             1 | 2 => rng.range(40, 200),
             _ => rng.range(0, 15),
         };
